@@ -123,6 +123,13 @@ func genConsume(prop string, seed uint64) *Plan {
 	nb := g.rng(1, 4)
 	k["nbroker"] = nb
 	nparts := g.rng(1, 4)
+	if prop == "C14" {
+		// several sources with buffered fetches at once: that is when one
+		// poll dispatches several batches of unbuffered hooks
+		nb = g.rng(2, 5)
+		k["nbroker"] = nb
+		nparts = g.rng(2, 7)
+	}
 	k["nparts"] = nparts
 	ntopics := g.rng(1, 2)
 	k["ntopics"] = ntopics
